@@ -113,6 +113,26 @@ def match(p, n, b: dict, expanded: bool = False, exp=None) -> bool:
                     x = ast.If(test=x.test.operand, body=x.orelse, orelse=x.body)
                 return x
             p, n = norm_if(p), norm_if(n)
+        if isinstance(p, ast.comprehension) and expanded:
+            # expanded comprehensions have canonical targets and elements written in terms of __elem__(iter): bind the pattern's loop variables accordingly
+            if not match(p.iter, n.iter, b, expanded, exp) or not match(p.ifs, n.ifs, b, expanded, exp):
+                return False
+            bound: dict = {}
+            _bind_loop(p.target, n.iter, bound)
+            for nm, ex in bound.items():
+                mv = _mv(ast.Name(id=nm, ctx=ast.Load()))
+                if mv is None:
+                    continue
+                kind, name = mv
+                if name == "_":
+                    continue
+                d = _dump(ex)
+                if name in b:
+                    if b[name][0] != d:
+                        return False
+                else:
+                    b[name] = (d, ex)
+            return True
         if isinstance(p, ast.Call):
             if not match(p.func, n.func, b, expanded, exp):
                 return False
@@ -189,10 +209,33 @@ def match(p, n, b: dict, expanded: bool = False, exp=None) -> bool:
     return p == n
 
 
+def _bind_target(t, value, out: dict):
+    if isinstance(t, ast.Name):
+        out.setdefault(t.id, value)
+    elif isinstance(t, (ast.Tuple, ast.List)) and not any(isinstance(e, ast.Starred) for e in t.elts):
+        for i, e in enumerate(t.elts):
+            _bind_target(e, ast.Subscript(value=value, slice=ast.Constant(value=i), ctx=ast.Load()), out)
+
+
+def _bind_loop(t, it, out: dict):
+    """loop / comprehension variables:  for v in X -> v = __elem__(X);  zip and enumerate are looked through"""
+    if isinstance(it, ast.Call) and isinstance(it.func, ast.Name) and not it.keywords:
+        if it.func.id == "zip" and isinstance(t, (ast.Tuple, ast.List)) and len(t.elts) == len(it.args):
+            for e, a in zip(t.elts, it.args):
+                _bind_loop(e, a, out)
+            return
+        if it.func.id == "enumerate" and isinstance(t, (ast.Tuple, ast.List)) and len(t.elts) == 2 and len(it.args) == 1:
+            _bind_target(t.elts[0], ast.Call(func=ast.Name(id="__index__", ctx=ast.Load()), args=[it.args[0]], keywords=[]), out)
+            _bind_loop(t.elts[1], it.args[0], out)
+            return
+    _bind_target(t, ast.Call(func=ast.Name(id="__elem__", ctx=ast.Load()), args=[it], keywords=[]), out)
+
+
 class Expander:
     """Substitutes single-assignment temporaries of a function by their defining expressions."""
 
-    def __init__(self, fn_node: ast.AST, max_depth: int = 8):
+    def __init__(self, fn_node: ast.AST, max_depth: int = 8, helpers=None):
+        self.helpers = helpers  # callable(ast.Call) -> (FunctionDef, drop_first_param) | None
         self.defs: dict[str, ast.expr] = {}
         counts: dict[str, int] = {}
         params = set()
@@ -205,8 +248,11 @@ class Expander:
             if a.kwarg:
                 params.add(a.kwarg.arg)
         simple: dict[str, ast.expr] = {}
+        comp_scoped = {id(x) for c in ast.walk(fn_node) if isinstance(c, ast.comprehension) for x in ast.walk(c.target)}
         for n in ast.walk(fn_node):
             if isinstance(n, ast.Name) and isinstance(n.ctx, (ast.Store, ast.Del)):
+                if id(n) in comp_scoped:
+                    continue  # comprehension variables live in their own scope (expanded locally)
                 counts[n.id] = counts.get(n.id, 0) + 1
             elif isinstance(n, (ast.Global, ast.Nonlocal)):
                 for nm in n.names:
@@ -217,33 +263,11 @@ class Expander:
             elif isinstance(n, ast.AnnAssign) and isinstance(n.target, ast.Name) and n.value is not None:
                 simple[n.target.id] = n.value
         # tuple unpacking  a, b = E   ->  a = E[0], b = E[1];   loop variables  for v in X -> v = __elem__(X)
-        def bind_target(t, value):
-            if isinstance(t, ast.Name):
-                simple.setdefault(t.id, value)
-            elif isinstance(t, (ast.Tuple, ast.List)) and not any(isinstance(e, ast.Starred) for e in t.elts):
-                for i, e in enumerate(t.elts):
-                    bind_target(e, ast.Subscript(value=value, slice=ast.Constant(value=i), ctx=ast.Load()))
-
-        def elem(x):
-            return ast.Call(func=ast.Name(id="__elem__", ctx=ast.Load()), args=[x], keywords=[])
-
-        def bind_loop(t, it):
-            if isinstance(it, ast.Call) and isinstance(it.func, ast.Name) and not it.keywords:
-                if it.func.id == "zip" and isinstance(t, (ast.Tuple, ast.List)) and len(t.elts) == len(it.args):
-                    for e, a in zip(t.elts, it.args):
-                        bind_loop(e, a)
-                    return
-                if it.func.id == "enumerate" and isinstance(t, (ast.Tuple, ast.List)) and len(t.elts) == 2 and len(it.args) == 1:
-                    bind_target(t.elts[0], ast.Call(func=ast.Name(id="__index__", ctx=ast.Load()), args=[it.args[0]], keywords=[]))
-                    bind_loop(t.elts[1], it.args[0])
-                    return
-            bind_target(t, elem(it))
-
         for n in ast.walk(fn_node):
             if isinstance(n, ast.Assign) and len(n.targets) == 1 and isinstance(n.targets[0], (ast.Tuple, ast.List)):
-                bind_target(n.targets[0], n.value)
+                _bind_target(n.targets[0], n.value, simple)
             elif isinstance(n, ast.For):
-                bind_loop(n.target, n.iter)
+                _bind_loop(n.target, n.iter, simple)
         # variables that are mutated in place are objects with identity, not temporaries
         mutated: set[str] = set()
         for n in ast.walk(fn_node):
@@ -279,22 +303,156 @@ class Expander:
             def __init__(s, d, skip):
                 s.d = d
                 s.skip = skip
+                s.local = {}
 
             def visit_Name(s, n):
+                if isinstance(n.ctx, ast.Load) and n.id in s.local:
+                    return copy.deepcopy(s.local[n.id])
                 if isinstance(n.ctx, ast.Load) and n.id in defs and n.id not in s.skip and s.d < maxd:
-                    return T(s.d + 1, s.skip | {n.id}).visit(copy.deepcopy(defs[n.id]))
+                    t2 = T(s.d + 1, s.skip | {n.id})
+                    t2.local = {}
+                    return t2.visit(copy.deepcopy(defs[n.id]))
                 return n
+
+            def _comp(s, n):
+                # generators are evaluated left to right; each one sees the variables of the previous ones
+                local = dict(s.local)
+                gens = []
+                for g in n.generators:
+                    t_iter = T(s.d, s.skip)
+                    t_iter.local = dict(local)
+                    it = t_iter.visit(g.iter)
+                    bound: dict = {}
+                    _bind_loop(g.target, it, bound)
+                    for nm in [x.id for x in ast.walk(g.target) if isinstance(x, ast.Name)]:
+                        local.pop(nm, None)
+                    local.update(bound)
+                    t_if = T(s.d, s.skip)
+                    t_if.local = dict(local)
+                    tgt = copy.deepcopy(g.target)
+                    for k, x in enumerate(x_ for x_ in ast.walk(tgt) if isinstance(x_, ast.Name)):
+                        x.id = f"_c{k}"  # the variables are substituted in the element: their names carry no information
+                    gens.append(ast.comprehension(target=tgt, iter=it, ifs=[t_if.visit(i) for i in g.ifs], is_async=g.is_async))
+                t_el = T(s.d, s.skip)
+                t_el.local = local
+                if isinstance(n, ast.DictComp):
+                    return ast.DictComp(key=t_el.visit(n.key), value=t_el.visit(n.value), generators=gens)
+                return type(n)(elt=t_el.visit(n.elt), generators=gens)
+
+            visit_ListComp = visit_SetComp = visit_GeneratorExp = visit_DictComp = _comp
 
             def visit_Lambda(s, n):
                 return n
 
+            def visit_Call(s, n):
+                n = s.generic_visit(n)
+                if self_.helpers is not None and s.d < maxd:
+                    r = self_.helpers(n)
+                    if r is not None:
+                        inl = inline_simple_helper(r[0], n, r[1])
+                        if inl is not None:
+                            return T(s.d + 1, s.skip).visit(inl)
+                return n
+
+        self_ = self
         return T(depth, skip).visit(copy.deepcopy(node))
+
+
+def simple_helper(fd: ast.FunctionDef) -> bool:
+    """A function whose body is (docstring) + single-name assignments + one final ``return <expr>``: it can be inlined as an expression."""
+    if fd.args.vararg or fd.args.kwarg or fd.decorator_list and any(ast.unparse(d) not in ("staticmethod", "classmethod") for d in fd.decorator_list):
+        return False
+    body = list(fd.body)
+    if body and isinstance(body[0], ast.Expr) and isinstance(body[0].value, ast.Constant) and isinstance(body[0].value.value, str):
+        body = body[1:]
+    if not body or not isinstance(body[-1], ast.Return) or body[-1].value is None:
+        return False
+    for st in body[:-1]:
+        if isinstance(st, ast.Assign) and len(st.targets) == 1 and isinstance(st.targets[0], ast.Name):
+            continue
+        if isinstance(st, ast.AnnAssign) and isinstance(st.target, ast.Name) and st.value is not None:
+            continue
+        return False
+    return not any(isinstance(x, (ast.Yield, ast.YieldFrom, ast.Await, ast.Lambda)) for x in ast.walk(fd))
+
+
+def inline_simple_helper(fd: ast.FunctionDef, call: ast.Call, drop_first: bool):
+    """The return expression of a simple helper with parameters replaced by the call's arguments (None if the call does not bind cleanly)."""
+    params = [a.arg for a in fd.args.posonlyargs + fd.args.args]
+    if drop_first and params:
+        params = params[1:]
+    kwonly = [a.arg for a in fd.args.kwonlyargs]
+    env: dict[str, ast.expr] = {}
+    if any(isinstance(a, ast.Starred) for a in call.args) or any(k.arg is None for k in call.keywords) or len(call.args) > len(params):
+        return None
+    for p, a in zip(params, call.args):
+        env[p] = a
+    for k in call.keywords:
+        if k.arg not in params + kwonly or k.arg in env:
+            return None
+        env[k.arg] = k.value
+    defaults = fd.args.defaults
+    pos_all = [a.arg for a in fd.args.posonlyargs + fd.args.args]
+    for p, d in zip(pos_all[len(pos_all) - len(defaults):], defaults):
+        env.setdefault(p, d)
+    for p, d in zip(kwonly, fd.args.kw_defaults):
+        if d is not None:
+            env.setdefault(p, d)
+    if any(p not in env for p in params + kwonly):
+        return None
+
+    class S(ast.NodeTransformer):
+        def visit_Name(self, n):
+            if isinstance(n.ctx, ast.Load) and n.id in env:
+                return copy.deepcopy(env[n.id])
+            return n
+
+    body = list(fd.body)
+    if body and isinstance(body[0], ast.Expr) and isinstance(body[0].value, ast.Constant):
+        body = body[1:]
+    for st in body[:-1]:
+        tgt = st.targets[0] if isinstance(st, ast.Assign) else st.target
+        env[tgt.id] = S().visit(copy.deepcopy(st.value))
+    return S().visit(copy.deepcopy(body[-1].value))
+
+
+def helper_resolver(fn: "FuncInfo"):
+    """Resolver of calls to *simple* helpers defined next to ``fn`` (same module, or same class through self./cls./ClassName.)."""
+    mod = fn.module
+
+    def resolve(call: ast.Call):
+        f = call.func
+        cands, drop = None, False
+        if isinstance(f, ast.Name):
+            cands = mod.functions.get(f.id)
+        elif isinstance(f, ast.Attribute) and isinstance(f.value, ast.Name):
+            owner = None
+            if f.value.id in ("self", "cls") and fn.cls is not None:
+                owner = fn.cls
+            elif f.value.id in mod.classes:
+                owner = mod.classes[f.value.id]
+            if owner is not None:
+                m = owner.find_method(f.attr) if hasattr(owner, "find_method") else None
+                if m is not None:
+                    cands = [m]
+                    decs = [ast.unparse(d) for d in m.node.decorator_list]
+                    drop = "staticmethod" not in decs
+        if not cands:
+            return None
+        fi = cands[-1]
+        if fi.node is fn.node or not fi.name.startswith("_") or fi.name.startswith("__"):
+            return None  # only private helpers: public functions are rule anchors of their own
+        if not simple_helper(fi.node):
+            return None
+        return fi.node, drop
+
+    return resolve
 
 
 class Matcher:
     def __init__(self, fn):
         self.fn_node = fn.node if isinstance(fn, FuncInfo) else fn
-        self._exp = Expander(self.fn_node)
+        self._exp = Expander(self.fn_node, helpers=(helper_resolver(fn) if isinstance(fn, FuncInfo) else None))
         self._raw = None
         self._xp = None
 
